@@ -61,3 +61,11 @@ NATIVE['n_c04_entry_cost'] = dict(
     bound='token price table exhaustive; entry cost on hand-written functions with 0..=3 pedersen calls',
     functions=[('crates/cairo-lang-runner/src/lib.rs', None, 'token_gas_cost'), ('crates/cairo-lang-runner/src/lib.rs', 'impl SierraCasmRunner', 'initial_required_gas'), ('crates/cairo-lang-runner/src/lib.rs', None, 'initialize_vm')],
 )
+NATIVE['n_c04_metadata'] = dict(
+    crate='cairo-lang-sierra-to-casm',
+    host='crates/cairo-lang-sierra-to-casm/src/compiler.rs',
+    harness='native/cairo-lang-sierra-to-casm/n_c04_metadata.rs',
+    props={'C04'},
+    bound='3 straight-line functions + fib_gas + hash_chain_gas; single tamperings of the honest metadata',
+    functions=[('crates/cairo-lang-sierra-to-casm/src/compiler.rs', None, 'validate_metadata')],
+)
